@@ -443,6 +443,7 @@ class Interp:
         self.opts = opts or {}
         self.inlined = set()
         self.call_depth = 0
+        self.step_hook = None
         Interp.current = self
 
     # ------------------------------------------------------------------ truthiness
@@ -1278,7 +1279,12 @@ class Interp:
 
     # ------------------------------------------------------------------ statements
     def exec_block(self, stmts, env):
+        hook = self.step_hook
         for s in stmts:
+            if hook is not None:
+                # interleaving point of the thread-modular harnesses: another thread's atomic
+                # step may run here (nested), before this statement
+                hook(s, env, self.frames[-1].qual if self.frames else "")
             self.exec_stmt(s, env)
 
     def exec_stmt(self, s, env):
